@@ -779,6 +779,8 @@ def _along_axis_vec(a, axis, fn):
         arr = arr.reshape(-1)
         axis = 0
     moved = np.moveaxis(arr, axis, -1)
+    if moved.size == 0:
+        return sa(arr.copy())
     res = np.empty(moved.shape, dtype=object)
     rf = res.reshape(-1, moved.shape[-1]) if moved.ndim else res
     mf = moved.reshape(-1, moved.shape[-1])
